@@ -463,7 +463,7 @@ def run_jobs(jobs, parallel):
 
 def model_jobs(ctx, variant):
     spec = SPECS / "TemplateLookup.tla"
-    shapes = ctx.pick(["chain5", "tree5", "diamond5"], ["chain5", "tree5", "diamond5", "tree6"])
+    shapes = ctx.pick(["chain5", "tree5", "diamond5", "lop5"], ["chain5", "tree5", "diamond5", "tree6", "lop5"])
     w = ctx.pick(4, 4)
     jobs = []
     for sh in shapes:
@@ -593,9 +593,9 @@ def report(ctx, rec, info, clause):
 def emission_jobs(ctx, variant):
     """spec -> code stimuli: every complete history of the bounded model with the I-layer's predicted answers"""
     quick = [("chain4", m, 3) for m in ("both", "fs", "pkg")] + [("diamond4", "both", 2), ("diamond4", "fs", 3), ("diamond4", "pkg", 3),
-                                                                   ("tree5", "both", 2)]
+                                                                   ("tree5", "both", 2), ("lop5", "fs", 2), ("lop5", "both", 2)]
     thorough = [("chain4", m, 3) for m in ("both", "fs", "pkg")] + [("diamond4", m, 3) for m in ("both", "fs", "pkg")] + [
-        ("tree5", "both", 3), ("chain5", "both", 3), ("diamond5", "both", 3), ("tree5", "fs", 3), ("tree5", "pkg", 3)]
+        ("tree5", "both", 3), ("chain5", "both", 3), ("diamond5", "both", 3), ("tree5", "fs", 3), ("tree5", "pkg", 3), ("lop5", "both", 3), ("lop5", "fs", 3), ("lop5", "pkg", 3)]
     spec = SPECS / "TemplateLookup.tla"
     jobs = []
     for sh, mode, L in ctx.pick(quick, thorough):
